@@ -197,6 +197,50 @@ def job_accept_only(payload):
     return out
 
 
+def job_words_leak(payload):
+    """Every core word on operand tuples of every type combination (the cells of C11), each text compiled and run to the
+    end in a leak-checked process; only texts the reference process ACCEPTS are used, so a leak here is not the known
+    rejected-query finding.  Words whose work is done through a C library (regcomp/regexec, iostreams) are reached here."""
+    seed, words = payload
+    from vf.props import c11
+    common.drop_driver()
+    ref = common.Driver()
+    d = common.get_driver(leaks=True, slow_unwind=True)
+    rng = random.Random(seed)
+    out = {"word_leak_runs": 0, "leakchecks": 0, "bad": []}
+    ctxt = []
+    try:
+        for w in words:
+            arity = 1 if w in c11.WORDS1 else (3 if w in c11.WORDS3 else 2)
+            for _ in range(12):
+                ops = [rng.choice(c11.POOL[:-1]) for _ in range(arity)]
+                if arity == 2 and rng.random() < 0.5:
+                    ops[1] = ops[0]
+                t = zast.text(("cat", ops + [c11.wnode(w)]))
+                if ref.req("parse q=%s" % common.hx(t))["st"] != "ok":
+                    continue
+                ctxt = [t] + ctxt[:8]
+                d.run(t, fuel=100000, max=200)
+                out["word_leak_runs"] += 1
+            leak_check(d, out, ctxt, False)
+        for t in ['"abc" "b" ?match', '"abc" "x" ?match', '"abc" "x" !match', '"abc" "(" ?match', '"abc" ("a", "x", "c$", "[") =~', '"abc" "x" !~', '"a" "%s %d %x" ',
+                  '1 "%x %o %b %d %s"', '[1, "a", [2]] "%s"', '"\\x00" "\\x00" ?find', '(1, 2, 3) hex "%s"']:
+            if ref.req("parse q=%s" % common.hx(t))["st"] == "ok":
+                ctxt = [t] + ctxt[:8]
+                d.run(t, fuel=100000, max=200)
+                out["word_leak_runs"] += 1
+        leak_check(d, out, ctxt, False)
+    except common.DriverCrash as ex:
+        out["bad"].append(("crash:" + getattr(ex, "key", ex.kind), dict(request=ex.request[:600], report=ex.report[-3500:])))
+    except common.DriverTimeout as ex:
+        out["bad"].append(("hang", dict(request=ex.request[:600])))
+    finally:
+        ref.kill()
+        common.drop_driver()
+    out.pop("_sigs", None)
+    return out
+
+
 def job_dwarf(payload):
     path, seed = payload
     common.drop_driver()
@@ -361,6 +405,9 @@ def run(chk):
     if not quick:
         files = sorted(set(files + [p for p in glob.glob(os.path.join(tdir, "*")) if os.path.isfile(p) and open(p, "rb").read(4) == b"\x7fELF"]))
     zcheck.consume(chk, pool.map(job_dwarf, [(f, i) for i, f in enumerate(files)]), tot, ctx, samples, "C13 dwarf")
+    from vf.props import c11 as _c11
+    cw = [w for w in _c11.WORDS1 + _c11.WORDS2 + _c11.WORDS3 if isinstance(w, str)]
+    zcheck.consume(chk, pool.map(job_words_leak, [(chk.seed * 17 + i, cw[i:i + 6]) for i in range(0, len(cw), 6)]), tot, ctx, samples, "C13 word leaks")
     # boundary stack depths for the whole vocabulary (constants excluded: they only push) and the back-tick forms
     dv = common.Driver()
     voc = dv.req("voc")["words"]
@@ -390,7 +437,7 @@ def run(chk):
         "injected_failure_runs": tot.get("fuel_runs", 0), "programs_raising_hard_errors": tot.get("error_runs", 0),
         "mutated_queries": tot.get("mutants", 0), "rejected_queries": tot.get("rejected", 0), "accepted_queries_leak_checked": tot.get("accepted", 0),
         "dwarf_runs": tot.get("dw_runs", 0), "dwarf_files": [os.path.basename(f) for f in files],
-        "leak_checks": tot.get("leakchecks", 0),
+        "leak_checks": tot.get("leakchecks", 0), "core_word_x_operand_runs_in_leak_checked_processes": tot.get("word_leak_runs", 0),
         "word_x_boundary_depth_runs": tot.get("shallow_runs", 0), "of_which_raised_cleanly": tot.get("shallow_errors", 0),
         "H1": {k: hs.get(k) for k in ("scon_new", "scon_del", "scon_con", "scon_des", "scon_get", "fuel_exhausted")},
         "state_types_seen": sorted((hs.get("state_types") or {}).keys()),
